@@ -55,6 +55,21 @@ ScopeProgs(a, b) == {
     NCall(V("map"), <<NArray(<<a, b>>), NLambda(<<"v">>, NArray(<<V("v"), NVar("")>>))>>)
 }
 
+\* (b') an assignment is an expression: wherever it stands, it binds in the frame of the nearest enclosing block or
+\* function body - a block of one expression is still a block
+\* (only the positions where the grammar takes a whole expression: as an operand of a binary operator an assignment
+\* cannot be written without the parentheses that make it a block)
+Wraps(asg) == { NCond(NBool(TRUE), asg, NNum(IntV(0))), NCond(NBool(FALSE), NNum(IntV(0)), asg),
+                NArray(<<asg>>), NArray(<<NNum(IntV(0)), asg>>), NCall(V("string"), <<asg>>), NCall(V("count"), <<NArray(<<asg, asg>>)>>),
+                NObject(<< <<NStr(ka), asg>> >>),
+                NBlock(<<asg>>), NCall(NLambda(<<>>, asg), <<>>), NCall(NLambda(<<"y">>, V("y")), <<asg>>), asg }
+NestedAssignProgs(a, b) ==
+    LET asg == NAssign("x", b) IN
+    UNION { { NBlock(<<NAssign("x", a), NBlock(<<w>>), V("x")>>),                    \* inside a block of one expression: the outer x is untouched
+              NBlock(<<NAssign("x", a), w, V("x")>>),                                \* in the block itself: x is rebound (unless w has a frame of its own)
+              NArray(<<NBlock(<<w>>), V("x")>>),                                     \* invisible outside the block
+              NBlock(<<NAssign("x", a), NArray(<<NBlock(<<w>>), V("x"), NBlock(<<w, V("x")>>)>>)>>) } : w \in Wraps(asg) }
+
 \* (c) partial application: placeholders in every position of a 3-parameter function
 F3 == NLambda(<<"p", "q", "r">>, NArray(<<NArray(<<V("p")>>), NArray(<<V("q")>>), NArray(<<V("r")>>)>>))
 Slot == {NPlace, NNum(IntV(7))}
@@ -98,6 +113,7 @@ CtxProgs == { PA(<<NName(ka), SB(NStr(<<122>>))>>),
 
 Init == /\ \/ \E sg \in Sigs, al \in ArgLists : WellFormedSig(sg) /\ case = SigCase(sg, al)
            \/ \E a \in Vals, b \in Vals : \E p \in ScopeProgs(a, b) : case = MkCase(p, Obj(<< <<ka, Arr(<<IntV(5), IntV(6)>>)>> >>))
+           \/ \E a \in Vals, b \in Vals : \E p \in NestedAssignProgs(a, b) : case = MkCase(p, Obj(<< <<ka, Arr(<<IntV(5), IntV(6)>>)>> >>))
            \/ \E p \in PartialProgs \cup ChainProgs \cup ChainValueProgs : case = MkCase(p, Obj(<<>>))
            \/ \E p \in CtxProgs : case = MkCase(p, CtxDoc)
         /\ out = Pending
